@@ -278,6 +278,10 @@ def interleaving_battery(seed=3):
                     os.chdir(wd)
                     c.write_output()
                     files[tag] = {f: open(os.path.join(wd, f), "rb").read() for f in sorted(os.listdir(wd))}
+                    if not files[tag]:
+                        res = {"reproduced": True, "history": "the process was started (and the package imported) in another directory; calculation %s writes its output after a chdir into %s" % (tag, wd),
+                               "observed": "no file appears in the current working directory", "expected": "the tables of the calculation in the directory it is run in"}
+                        raise StopIteration
             finally:
                 os.chdir(cwd)
             ra3, rb3 = snapshot(ca), snapshot(cb)    # ... and after both wrote their output
